@@ -1,6 +1,6 @@
 CFG = {
     "level": "proof",
-    "level_text": "Lean theorems over exact values of doubles (every finite double is an integer multiple of 2^-1074): trichotomy/ops_agree/cmp_spec/sort_uses_same_order prove that exactly one of <, ==, > holds and that <=, >=, !=, std.sort agree with it; finite_guard/arith_result_finite/arith_nonfinite_is_error/div_mod_by_zero/builtin_result_finite prove that, whatever the FPU or libm returns, only finite results become values and division/modulo by zero is an error; trunc_is_safe_range/bitwise_spec/shl_spec/shl_err_iff/shr_spec/bitnot_spec prove that & | ^ << >> act on the integer parts of operands in the safe-integer range as two's-complement operations, and fail exactly outside that range, for negative counts and for products that do not fit i64. The model is tied to the code by re-extracting the safe-integer bound, the shift modulus, the shape of the numeric equality arm and of every numeric operator arm (all end in Val::try_num), and by a differential run of the real evaluator on all pairs of a boundary-dense set of doubles against both the model and an independent exact IEEE-754 round-to-nearest-even reference written in Lean.",
+    "level_text": "Lean theorems over exact values of doubles (every finite double is an integer multiple of 2^-1074): bits_roundtrip/eq_on_bits prove that this representation is a faithful image of the 64-bit patterns (encode∘decode is the identity on every finite pattern, and == holds exactly for identical patterns or two zeros); trichotomy/ops_agree/cmp_spec/sort_uses_same_order prove that exactly one of <, ==, > holds and that <=, >=, !=, std.sort agree with it; finite_guard/arith_result_finite/arith_nonfinite_is_error/div_mod_by_zero/builtin_result_finite prove that, whatever the FPU or libm returns, only finite results become values and division/modulo by zero is an error; trunc_is_safe_range/bitwise_spec/shl_spec/shl_err_iff/shr_spec/bitnot_spec prove that & | ^ << >> act on the integer parts of operands in the safe-integer range as two's-complement operations, and fail exactly outside that range, for negative counts and for products that do not fit i64. The model is tied to the code by re-extracting the safe-integer bound, the shift modulus, the shape of the numeric equality arm and of every numeric operator arm (all end in Val::try_num), and by a differential run of the real evaluator on all pairs of a boundary-dense set of doubles against both the model and an independent exact IEEE-754 round-to-nearest-even reference written in Lean.",
     "level_note": "Partial: 'correctly rounded' and 'agrees with the platform libm' are not theorems. + - * / % and floor/ceil/round/abs/sign/max/min/clamp/mantissa/exponent/deg2rad/rad2deg are compared bit-for-bit with an exact integer-arithmetic reference (correspondence, all boundary pairs); sqrt/log/exp/pow/trig are compared bit-for-bit with Lean's Float (the platform C library) — observation only. std.hypot is only observed to be finite-or-error. Trusted: Lean kernel; hand model of operator.rs/val.rs arms (validated by correspondence); i64 wrap-around described as Int.bmod 2^64 and BitVec 64.",
     "technique": "Lean 4 proof over exact dyadic values / Int / BitVec 64 + constant and code-shape extraction + differential correspondence against an exact IEEE-754 reference",
     "engines": ["c09"],
